@@ -75,6 +75,95 @@ theorem updState_root (st : TState) (su : TStatus) (kids next : Forest) (rest : 
   · simp only [Option.some.injEq] at h
     simp_all [rootState]
 
+
+/-! ### updates keep the shape: which paths address critical / non-critical leaves -/
+
+theorem updState_error_cases (f : Forest) (p : List Nat) :
+    (updState f p .ERROR).2 = none ∨ (updState f p .ERROR).2 = some .ERROR := by
+  generalize hs : TState.ERROR = s
+  fun_induction updState f p s with
+  | case1 => exact Or.inl rfl
+  | case2 => exact Or.inl rfl
+  | case3 c crit st su next s => cases crit <;> simp
+  | case4 => exact Or.inl rfl
+  | case5 c crit st su next i rest s r ih => exact ih hs
+  | case6 st su kids next rest s r hnone ih => exact Or.inl rfl
+  | case7 st su kids next rest s r v hsome st' ih =>
+    right
+    subst hs
+    rcases ih rfl with h | h
+    · rw [h] at hsome; cases hsome
+    · rw [h] at hsome; cases hsome
+      simp only [st']
+      rw [mergeState_error]
+  | case8 st su kids next i rest s r ih => exact ih hs
+
+theorem critLeafAt_updState (f : Forest) (q : List Nat) (s : TState) :
+    ∀ p, critLeafAt (updState f q s).1 p = critLeafAt f p := by
+  fun_induction updState f q s with
+  | case1 => intro p; rfl
+  | case2 => intro p; rfl
+  | case3 c crit st su next s => intro p; simp only [critLeafAt]
+  | case4 => intro p; rfl
+  | case5 c crit st su next i rest s r ih =>
+    intro p
+    match p with
+    | [] => simp [critLeafAt]
+    | [0] => simp [critLeafAt]
+    | 0 :: _ :: _ => simp [critLeafAt]
+    | (j + 1) :: rest' => simp only [critLeafAt]; exact ih (j :: rest')
+  | case6 st su kids next rest s r hnone ih =>
+    intro p
+    match p with
+    | [] => simp [critLeafAt]
+    | 0 :: rest' => simp only [critLeafAt]; exact ih rest'
+    | (j + 1) :: rest' => simp only [critLeafAt]
+  | case7 st su kids next rest s r v hsome st' ih =>
+    intro p
+    match p with
+    | [] => simp [critLeafAt]
+    | 0 :: rest' => simp only [critLeafAt]; exact ih rest'
+    | (j + 1) :: rest' => simp only [critLeafAt]
+  | case8 st su kids next i rest s r ih =>
+    intro p
+    match p with
+    | [] => simp [critLeafAt]
+    | 0 :: rest' => simp only [critLeafAt]
+    | (j + 1) :: rest' => simp only [critLeafAt]; exact ih (j :: rest')
+
+theorem critLeafAt_updStatus (f : Forest) (q : List Nat) (s : TStatus) :
+    ∀ p, critLeafAt (updStatus f q s).1 p = critLeafAt f p := by
+  fun_induction updStatus f q s with
+  | case1 => intro p; rfl
+  | case2 => intro p; rfl
+  | case3 c crit st su next s => intro p; simp only [critLeafAt]
+  | case4 => intro p; rfl
+  | case5 c crit st su next i rest s r ih =>
+    intro p
+    match p with
+    | [] => simp [critLeafAt]
+    | [0] => simp [critLeafAt]
+    | 0 :: _ :: _ => simp [critLeafAt]
+    | (j + 1) :: rest' => simp only [critLeafAt]; exact ih (j :: rest')
+  | case6 st su kids next rest s r hnone ih =>
+    intro p
+    match p with
+    | [] => simp [critLeafAt]
+    | 0 :: rest' => simp only [critLeafAt]; exact ih rest'
+    | (j + 1) :: rest' => simp only [critLeafAt]
+  | case7 st su kids next rest s r v hsome su' ih =>
+    intro p
+    match p with
+    | [] => simp [critLeafAt]
+    | 0 :: rest' => simp only [critLeafAt]; exact ih rest'
+    | (j + 1) :: rest' => simp only [critLeafAt]
+  | case8 st su kids next i rest s r ih =>
+    intro p
+    match p with
+    | [] => simp [critLeafAt]
+    | 0 :: rest' => simp only [critLeafAt]
+    | (j + 1) :: rest' => simp only [critLeafAt]; exact ih (j :: rest')
+
 /-! ### notify / setLeaf frame lemmas -/
 
 theorem notify_frame (s : Sys) (v : Option TState) (r : Bool) :
@@ -228,5 +317,33 @@ theorem failOne_frame (k : Kind) (s : Sys) (p : List Nat) (r : Bool) :
   · rw [(notify_frame _ _ _).2.2.1]
   · rw [(notify_frame _ _ _).2.2.2.2.1]
   · rw [(notify_frame _ _ _).2.2.2.1]
+
+
+/-- The fail step keeps the shape of the tree. -/
+theorem failOne_critLeafAt (k : Kind) (s : Sys) (q : List Nat) (r : Bool) :
+    ∀ p, critLeafAt (failOne k s q r).f p = critLeafAt s.f p := by
+  intro p
+  unfold failOne
+  simp only
+  rw [(notify_frame _ _ _).2.1]
+  simp only
+  cases (effect k s.env.st).st <;> cases (effect k s.env.st).su <;>
+    simp only [critLeafAt_updStatus, critLeafAt_updState]
+
+/-- Where the watcher can be after one fail step of a kind that reports ERROR. -/
+theorem failOne_w (k : Kind) (s : Sys) (q : List Nat) (r : Bool) (hk : k.drives s.env.st = true) :
+    (s.w ≠ .parked → (failOne k s q r).w = s.w) ∧
+    (s.w = .parked → (failOne k s q r).w = .parked ∨ (failOne k s q r).w = .armed) := by
+  have he : (effect k s.env.st).st = some .ERROR := by simpa [Kind.drives] using hk
+  unfold failOne
+  simp only [he]
+  refine ⟨fun h => ?_, fun h => ?_⟩
+  · refine (notify_w_not_parked _ _ _ ?_).1; exact h
+  rcases updState_error_cases s.f q with hn | hn
+  · rw [hn, notify_none]; exact Or.inl h
+  · rw [hn]
+    cases r
+    · left; refine (notify_error_busy _ ?_).1; exact h
+    · right; refine notify_error_ready _ ?_; exact h
 
 end Failure
